@@ -32,61 +32,84 @@ Proof.
   - intros Hin. destruct (inbox s !! R) as [l|] eqn:E; cbn in Hin; [eauto|by apply elem_of_nil in Hin].
 Qed.
 
-(* one step, seen from the inboxes *)
+(* one step, seen from the inboxes: the message an actor handles is one that no earlier message of the same sender
+   precedes in its inbox (the head, for LDeliver); what it sends is appended, in order, to the destinations' inboxes *)
 Inductive fifo_step (fx w : bool) (s s' : sys) : Prop :=
-| FS_actor (t : tid) (a : astate) (e : event) (ok : bool) (a' : astate) (os : list out) (ob : list obs) (rest : list msg) :
+| FS_actor (t : tid) (a : astate) (e : event) (ok : bool) (a' : astate) (os : list out) (ob : list obs) (pre rest : list msg) :
     actors s !! t = Some a ->
     actor_step fx ok a e = Some (a', os, ob) ->
     actors s' = <[t := a']> (actors s) ->
-    (match e with EMsg m => inb (inbox s) t = m :: rest | _ => rest = inb (inbox s) t end) ->
-    (forall R, inb (inbox s') R = (if decide (R = t) then rest else inb (inbox s) R) ++ msgs_to R os) ->
+    (match e with
+     | EMsg m => inb (inbox s) t = pre ++ m :: rest /\ none_from sender (sender m) pre = true
+     | _ => pre = [] /\ rest = inb (inbox s) t
+     end) ->
+    (forall R, inb (inbox s') R = (if decide (R = t) then pre ++ rest else inb (inbox s) R) ++ msgs_to R os) ->
     ph s' = ph s -> termq s' ⊆ termq s -> (e = ETerm -> t ∈ termq s) ->
     fifo_step fx w s s'
 | FS_other :
     actors s' = actors s -> inbox s' = inbox s -> (ph s' = PRun -> ph s = PRun /\ termq s' = termq s) -> fifo_step fx w s s'.
 
-Lemma apply_step_fifo fx w s t a e ok ib sl tq rest s' :
+Lemma apply_step_fifo fx w s t a e ok ib sl tq pre rest s' :
   actors s !! t = Some a ->
   apply_step s t ib sl tq (actor_step fx ok a e) = Some s' ->
-  (match e with EMsg m => inb (inbox s) t = m :: rest | _ => rest = inb (inbox s) t end) ->
-  (forall R, inb ib R = if decide (R = t) then rest else inb (inbox s) R) ->
+  (match e with
+   | EMsg m => inb (inbox s) t = pre ++ m :: rest /\ none_from sender (sender m) pre = true
+   | _ => pre = [] /\ rest = inb (inbox s) t
+   end) ->
+  (forall R, inb ib R = if decide (R = t) then pre ++ rest else inb (inbox s) R) ->
   tq ⊆ termq s -> (e = ETerm -> t ∈ termq s) ->
   fifo_step fx w s s'.
 Proof.
   intros Ha Happ Hhead Hib Htq Hterm. unfold apply_step in Happ.
   destruct (actor_step fx ok a e) as [[[a' os] ob]|] eqn:Hst; [|done].
   destruct (route ib (rootq s) os) as [ib' rq'] eqn:Hr. injection Happ as <-.
-  eapply (FS_actor fx w s _ t a e ok a' os ob rest); try done.
+  eapply (FS_actor fx w s _ t a e ok a' os ob pre rest); try done.
   intros R. cbn. rewrite (route_inb _ _ _ _ _ R Hr). by rewrite Hib.
+Qed.
+
+Lemma root_consume_same w s o rest : actors (root_consume w s o rest) = actors s /\ inbox (root_consume w s o rest) = inbox s /\
+  (ph (root_consume w s o rest) = PRun -> termq (root_consume w s o rest) = termq s).
+Proof.
+  unfold root_consume. destruct w; [done|]. by destruct o as [[|d] [k r|k r|[] t act|k t]|t].
 Qed.
 
 Lemma exec_fifo fx w s l s' : exec fx w s l = Some s' -> fifo_step fx w s s'.
 Proof.
-  destruct l as [t ok|t ok|t|t r| | | | |ts|]; cbn [exec]; intros H.
+  destruct l as [t ok|t ok|t|t r| | | | |ts| |t i ok|i]; cbn [exec]; intros H.
   - destruct (actors s !! t) as [a|] eqn:Ha; [|done].
     destruct (inbox s !! t) as [[|m rest]|] eqn:Hib; try done.
-    eapply (apply_step_fifo fx w s t a (EMsg m) ok _ _ _ rest); try done.
+    eapply (apply_step_fifo fx w s t a (EMsg m) ok _ _ _ [] rest); try done.
     + unfold inb. by rewrite Hib.
     + intros R. unfold inb. destruct (decide (R = t)) as [->|Hne]; [by rewrite lookup_insert|by rewrite lookup_insert_ne].
   - destruct (actors s !! t) as [a|] eqn:Ha; [|done]. case_bool_decide as Hin; [|done].
-    eapply (apply_step_fifo fx w s t a EInval ok _ _ _ (inb (inbox s) t)); try done.
+    eapply (apply_step_fifo fx w s t a EInval ok _ _ _ [] (inb (inbox s) t)); try done.
     intros R. by destruct (decide (R = t)) as [->|].
   - destruct (actors s !! t) as [a|] eqn:Ha; [|done]. case_bool_decide as Hin; [|done].
-    eapply (apply_step_fifo fx w s t a ETerm true _ _ _ (inb (inbox s) t)); try done.
+    eapply (apply_step_fifo fx w s t a ETerm true _ _ _ [] (inb (inbox s) t)); try done.
     + intros R. by destruct (decide (R = t)) as [->|].
     + set_solver.
   - destruct (actors s !! t) as [a|] eqn:Ha; [|done].
     destruct (match r with RCancelled => cancel_sent a | _ => true end) eqn:Hcs; [|done].
-    eapply (apply_step_fifo fx w s t a (EBuildDone r) true _ _ _ (inb (inbox s) t)); try done.
+    eapply (apply_step_fifo fx w s t a (EBuildDone r) true _ _ _ [] (inb (inbox s) t)); try done.
     intros R. by destruct (decide (R = t)) as [->|].
   - destruct (root_running s && _) eqn:Hc; [|done]. apply andb_true_iff in Hc as [Hrun _].
     unfold root_running in Hrun. apply bool_decide_eq_true in Hrun. destruct (rootq s) as [|o rest]; [done|].
-    destruct w; [injection H as <-; by apply FS_other|].
-    destruct o as [[|d] [k r|k r|[] t act|k t]|t]; injection H as <-; by apply FS_other.
+    injection H as <-. destruct (root_consume_same w s o rest) as (H1 & H2 & H3). apply FS_other; try done. intros Hp. split; [done|by apply H3].
   - destruct (root_running s && negb w && root_sets_empty s); [|done].
     destruct (set_empty (r_svc s)); injection H as <-; by apply FS_other.
   - destruct (ph s) eqn:Hp; try done; injection H as <-; apply FS_other; cbn; try done.
   - destruct (sigq s && _); [|done]. injection H as <-. by apply FS_other.
   - destruct (w && _); [|done]. injection H as <-. by apply FS_other.
   - destruct (ph s); try done. destruct (all_exited s); [|done]. injection H as <-. by apply FS_other.
+  - destruct (actors s !! t) as [a|] eqn:Ha; [|done].
+    destruct (inbox s !! t) as [l|] eqn:Hib; [|done].
+    destruct (pick i l) as [[[pre m] rest]|] eqn:Hpk; [|done].
+    destruct (none_from sender (sender m) pre) eqn:Hnf; [|done]. apply pick_spec in Hpk. subst l.
+    eapply (apply_step_fifo fx w s t a (EMsg m) ok _ _ _ pre rest); try done.
+    + split; [|done]. unfold inb. by rewrite Hib.
+    + intros R. unfold inb. destruct (decide (R = t)) as [->|Hne]; [by rewrite lookup_insert|by rewrite lookup_insert_ne].
+  - destruct (root_running s && _) eqn:Hc; [|done]. apply andb_true_iff in Hc as [Hrun _].
+    unfold root_running in Hrun. apply bool_decide_eq_true in Hrun.
+    destruct (pick i (rootq s)) as [[[pre o] rest]|]; [|done]. destruct (none_from _ _ pre); [|done].
+    injection H as <-. destruct (root_consume_same w s o (pre ++ rest)) as (H1 & H2 & H3). apply FS_other; try done. intros Hp. split; [done|by apply H3].
 Qed.
